@@ -53,6 +53,19 @@ pub fn apply(lib: &Library) -> Result<String, Vec<Diagnostic>> {
         .map_err(|e| vec![e])
 }
 
+/// Returns the digits after the decimal point for a number of microseconds:
+/// six digits so that leading zeros are kept, without trailing zeros (but
+/// at least two digits).
+fn fraction_of_second(micro: u32) -> String {
+    let digits = format!("{:06}", micro);
+    let significant = digits.trim_end_matches('0');
+    if significant.len() < 2 {
+        digits[..2].to_string()
+    } else {
+        significant.to_string()
+    }
+}
+
 struct LibraryRenderer {
     buffer: String,
     indents: usize,
@@ -199,11 +212,14 @@ impl Visitor<Diagnostic> for LibraryRenderer {
         &mut self,
         node: &TimeOfDayLiteral,
     ) -> Result<Self::Value, Diagnostic> {
-        let (hr, min, sec, milli) = node.hmsm();
+        let (hr, min, sec, micro) = node.hmsm();
         self.write_ws(
             format!(
-                "TIME_OF_DAY#{:0>2}:{:0>2}:{:0>2}.{:0>2}",
-                hr, min, sec, milli
+                "TIME_OF_DAY#{:0>2}:{:0>2}:{:0>2}.{}",
+                hr,
+                min,
+                sec,
+                fraction_of_second(micro)
             )
             .as_str(),
         );
@@ -220,12 +236,18 @@ impl Visitor<Diagnostic> for LibraryRenderer {
         &mut self,
         node: &DateAndTimeLiteral,
     ) -> Result<Self::Value, Diagnostic> {
-        let (hr, min, sec, milli) = node.hmsm();
+        let (hr, min, sec, micro) = node.hmsm();
         let (year, month, day) = node.ymd();
         self.write_ws(
             format!(
-                "DATE_AND_TIME#{:0>4}-{:0>2}-{:0>2}-{:0>2}:{:0>2}:{:0>2}.{:0>2}",
-                year, month, day, hr, min, sec, milli
+                "DATE_AND_TIME#{:0>4}-{:0>2}-{:0>2}-{:0>2}:{:0>2}:{:0>2}.{}",
+                year,
+                month,
+                day,
+                hr,
+                min,
+                sec,
+                fraction_of_second(micro)
             )
             .as_str(),
         );
